@@ -14,8 +14,18 @@ when it runs out (the driver reports that as `fuel`).  Listener ids: objects `1.
 -/
 namespace Morfuse.Sched
 
+/-- script values as far as the host-call protocol needs them -/
+inductive V | nil | int (n : Nat) | str (s : String) deriving Repr, DecidableEq, Inhabited
+
+def V.show : V → String
+  | .nil => "NIL" | .int n => toString n | .str s => s
+
+/-- operand of `end` -/
+inductive EndV | none | lit (n : Nat) | param (i : Nat) deriving Repr, DecidableEq, Inhabited
+
 inductive Instr
   | mark (k : Nat)
+  | pparam (i : Nat)                            -- `println "p" local.p<i>`
   | wait (ms : Nat)
   | waittill (o : Nat) (names : List Nat)      -- one name: `waittill`; several: `waittill_any`
   | notify (o n : Nat)
@@ -24,7 +34,7 @@ inductive Instr
   | thread (l : Nat)
   | waitthread (l : Nat)
   | pause
-  | end_ (v : Option Nat)
+  | end_ (v : EndV)
   | spawn (o : Nat)
   deriving Repr, DecidableEq, Inhabited
 
@@ -32,7 +42,7 @@ inductive TS | running | timing | waiting deriving Repr, DecidableEq, Inhabited
 inductive VS | running | suspended | idling | destroyed deriving Repr, DecidableEq, Inhabited
 
 /-- value seen by the host in its `Event` after `ExecuteThread(script, event, label)` -/
-inductive Ret | open_ | none | pending | nil | int (v : Nat) deriving Repr, DecidableEq, Inhabited
+inductive Ret | open_ | none | pending | nil | val (v : V) deriving Repr, DecidableEq, Inhabited
 
 structure Th where
   label : Nat
@@ -45,6 +55,7 @@ structure Th where
   attached : Bool := true     -- `vm->m_ScriptClass != nullptr`
   call : Option Nat := none   -- host call whose result cell this thread's VM shares
   dead : Bool := false        -- the `ScriptThread` object is gone (weak references read null)
+  params : List V := []       -- the label's declared parameters after binding
   deriving Repr, Inhabited
 
 def nameDelete : Nat := 1000
@@ -52,6 +63,7 @@ def nameRemove : Nat := 1001
 
 structure State where
   prog : List (List Instr) := []
+  progParams : List Nat := []                -- declared parameter count of every label
   clock : Nat := 0
   scaled : Nat := 0
   lastClock : Nat := 0
@@ -90,6 +102,14 @@ def getRet (s : State) (c : Nat) : Ret := ((s.calls.find? (·.1 == c)).map (·.2
 end State
 
 open State
+
+/-- the loop `STORE_PARAM; LOAD_LOCAL_VAR p` over the declared parameters, with the VM's `fastIndex`:
+    `if (fastIndex < NumArgs) top = arg[++fastIndex] else top = NIL` -/
+def bindLoop : Nat → Nat → List V → List V
+  | 0, _, _ => []
+  | n + 1, fastIndex, args =>
+    if fastIndex < args.length then args.getD fastIndex .nil :: bindLoop n (fastIndex + 1) args
+    else .nil :: bindLoop n fastIndex args
 
 /-- `ScriptClass::RemoveThread`: unlink the VM; the instance dies with its last thread -/
 def removeFromInst (s : State) (t : Nat) (i : Nat) : State :=
@@ -329,7 +349,7 @@ def process : Nat → State → Nat → State
     | some th =>
       if th.vm != .running then s else
       let body := s.prog.getD th.label []
-      let ins := body.getD th.pc (.end_ none)
+      let ins := body.getD th.pc (.end_ .none)
       let s := s.setTh t (fun th => { th with pc := th.pc + 1 })
       let s := exec fuel s t th ins
       process fuel s t
@@ -340,6 +360,7 @@ def exec : Nat → State → Nat → Th → Instr → State
   | fuel + 1, s, t, th, ins =>
     match ins with
     | .mark k => s.emit s!"m{k}"
+    | .pparam i => s.emit s!"p_{(th.params.getD i .nil).show}"
     | .wait ms =>
       -- Wait(): StartTiming(time); Suspend()
       let s := stop fuel s t
@@ -381,7 +402,7 @@ def exec : Nat → State → Nat → Th → Instr → State
       if l ≥ s.prog.length then s else
       let t' := s.nextTid
       let s := { s with nextTid := t' + 1,
-                        threads := s.threads ++ [(t', ({ label := l, inst := th.inst } : Th))],
+                        threads := s.threads ++ [(t', ({ label := l, inst := th.inst, params := bindLoop (s.progParams.getD l 0) 0 [] } : Th))],
                         insts := s.insts.map (fun (e : Nat × List Nat) => if e.1 == th.inst then (e.1, t' :: e.2) else e) }
       scriptExecuteInternal fuel s t'
     | .waitthread l =>
@@ -391,7 +412,7 @@ def exec : Nat → State → Nat → Th → Instr → State
       let t' := s.nextTid
       let i' := s.nextInst
       let s := { s with nextTid := t' + 1, nextInst := i' + 1,
-                        threads := s.threads ++ [(t', ({ label := l, inst := i' } : Th))],
+                        threads := s.threads ++ [(t', ({ label := l, inst := i', params := bindLoop (s.progParams.getD l 0) 0 [] } : Th))],
                         insts := (i', [t']) :: s.insts }
       match s.cur with
       | none => scriptExecuteInternal fuel s t'
@@ -408,15 +429,20 @@ def exec : Nat → State → Nat → Th → Instr → State
     | .pause =>
       let s := stop fuel s t
       vmSuspend s t
-    | .end_ v =>
-      -- End()/EndRef(): result into the shared cell, then `delete m_Thread`
+    | .end_ ev =>
+      -- End()/EndRef(): result into the shared cell, then `delete m_Thread`.  Ending with a NIL
+      -- value is indistinguishable from a plain `end` for the host.
+      let v : Option V := match ev with
+        | .none => none
+        | .lit n => some (.int n)
+        | .param i => match th.params.getD i .nil with | .nil => none | x => some x
       let s := match th.call with
         | none => s
         | some c =>
           match s.getRet c, v with
-          | .open_, some x => s.setRet c (.int x)        -- still inside the host call
+          | .open_, some x => s.setRet c (.val x)        -- still inside the host call
           | .open_, none => s.setRet c .none             -- cell cleared: nothing is added to the Event
-          | .pending, some x => s.setRet c (.int x)
+          | .pending, some x => s.setRet c (.val x)
           | .pending, none => s.setRet c .nil
           | _, _ => s
       deleteThread fuel (s.setTh t (fun th => { th with call := none })) t
@@ -428,14 +454,14 @@ end
 def defaultFuel : Nat := 4000
 
 /-- `director.ExecuteThread(script, event, label)`; `label` out of range = label not found -/
-def hostCall (s : State) (label : Nat) : State × String :=
+def hostCall (s : State) (label : Nat) (args : List V := []) : State × String :=
   if label ≥ s.prog.length then (s, "err LabelNotFound") else
   let i := s.nextInst
   let t := s.nextTid
   let c := s.nextCall
   let s := { s with nextInst := i + 1, nextTid := t + 1, nextCall := c + 1,
                     insts := (i, [t]) :: s.insts,
-                    threads := s.threads ++ [(t, { label := label, inst := i, call := some c })],
+                    threads := s.threads ++ [(t, ({ label := label, inst := i, call := some c, params := bindLoop (s.progParams.getD label 0) 0 args } : Th))],
                     calls := s.calls ++ [(c, .open_)] }
   let s := scriptExecuteInternal defaultFuel s t
   -- `if (!returnValue.IsNone()) ev.AddValue(std::move(returnValue))`: still a pointer = the thread lives on
